@@ -69,7 +69,7 @@ fn any_file_info() -> (FileInfo, [usize; NL], usize) {
 //@ sym: FileInfo with 1..=4 symbolic line starts (any strictly increasing usize values) and symbolic text_len; offset: any usize <= text_len
 //@ oracle: result line is the last line whose start <= offset; line < number of lines; line_start + column == offset; no panic, no underflow
 //@ bounds: <= 4 lines (binary search depth <= 3); offsets and starts unbounded; unwind 6
-//@ assumes: representation invariant of FileInfo (first start 0, strictly increasing, starts <= text_len) as established by FileInfo::new (checked on texts of <= 1 byte by c10_k3_fileinfo_new_b01)
+//@ assumes: representation invariant of FileInfo (first start 0, strictly increasing, starts <= text_len) as established by FileInfo::new (checked on texts of <= 1 byte by c10_k3_fileinfo_new_empty / _b1)
 //@ replay: playback
 #[kani::proof]
 #[kani::unwind(6)]
@@ -194,21 +194,34 @@ fn fileinfo_new_check<const N: usize>() {
     std::mem::forget(info);
 }
 
-//@ id: c10_k3_fileinfo_new_b01
+//@ id: c10_k3_fileinfo_new_empty
 //@ property: C10
 //@ tier: quick
-//@ encodes: FileInfo::new (empty file and one-byte file)
-//@ sym: text of 0 or 1 ASCII bytes; offset <= len
-//@ oracle: as c10_k3_fileinfo_new (in particular: the empty file has exactly one line, starting at 0)
-//@ bounds: <= 1 byte (measured: from 2 bytes on the vector can be re-allocated on one path and not on the other; CBMC's array post-processing does not finish on the merged heap - 2 bytes > 10 min); unwind 7
+//@ encodes: FileInfo::new on the empty text, FileInfo::trans_span2(0) on its result
+//@ sym: none (the one empty source file); kept apart from the symbolic texts so that it stays decidable whatever shape the constructor takes
+//@ oracle: the empty file has exactly one line, starting at 0; offset 0 is line 0, column 0; no panic
+//@ bounds: the empty text; unwind 7
 //@ replay: playback
 #[kani::proof]
 #[kani::unwind(7)]
-fn c10_k3_fileinfo_new_b01() {
-    if kani::any() {
-        fileinfo_new_check::<0>();
-    } else {
-        fileinfo_new_check::<1>();
-    }
+fn c10_k3_fileinfo_new_empty() {
+    fileinfo_new_check::<0>();
+    let info = FileInfo::new("", None);
+    let cursor = info.trans_span2(0);
+    assert!(cursor.line == 0 && cursor.column == 0, "start of an empty file");
+    std::mem::forget(info);
 }
 
+//@ id: c10_k3_fileinfo_new_b1
+//@ property: C10
+//@ tier: quick
+//@ encodes: FileInfo::new (one-byte file)
+//@ sym: text of exactly 1 ASCII byte (newline, carriage return, ordinary character)
+//@ oracle: line_starts == [0] ++ [1 if the byte is '\n']; text_len == 1; the representation invariant assumed by the trans_span2 / span harnesses holds
+//@ bounds: 1 byte (measured: from 2 bytes on the vector can be re-allocated on one path and not on the other; CBMC's array post-processing does not finish on the merged heap - 2 bytes > 10 min); unwind 7
+//@ replay: playback
+#[kani::proof]
+#[kani::unwind(7)]
+fn c10_k3_fileinfo_new_b1() {
+    fileinfo_new_check::<1>();
+}
